@@ -161,3 +161,38 @@ def check_C02(res, tier, seed, replay):
 
 
 REGISTRY = {'C01': check_C01, 'C02': check_C02}
+
+
+def c09_inputs(rng, tier):
+    inputs = []
+    nr = 500 if tier == 'quick' else 8000
+    # arbitrary decimal weights k/1000 in [0.001, 1000]
+    for _ in range(nr):
+        n = rng.randint(4, 9)
+        m = rng.randint(n - 1, min(n * (n - 1) // 2, 15))
+        style = rng.random()
+        if style < 0.4:
+            wg = lambda: rng.randint(1, 1000000)
+        elif style < 0.6:
+            wg = lambda: rng.choice([100, 200, 300])              # 0.1 0.2 0.3: sums that are not exact in binary
+        elif style < 0.8:
+            wg = lambda: rng.choice([100, 200, 300, 700, 1100, 1300])
+        else:
+            wg = lambda: rng.randint(1, 5000)
+        inputs.append((gens.rand_graph(rng, n, m, wg), 1000))
+    for g in gens.families(rng, big=False):
+        inputs.append((gens.reweight(rng, g, [100, 200, 300]), 1000))
+        inputs.append((gens.reweight(rng, g, list(range(1, 999))), 1000))
+    return inputs
+
+
+def check_C09(res, tier, seed, replay):
+    rng = random.Random(seed)
+    res.assumptions += ['weights are k/1000 for integers k; the oracle runs on the integers k (exact); the rounding of k/1000 to double (<= 2^-53 relative) is nine orders of magnitude below the 1e-9 tolerance',
+                        'ret is logged as nearest integer of ret*1000 plus the fraction in 1e-9 units; |ret - opt| <= 1e-9 * opt is decided in 32-bit integer arithmetic']
+    inputs = None if replay else c09_inputs(rng, tier)
+    run_exact(res, tier, seed, replay, CLAUSES['C09'], algos='signed,fvs,iso,signed_tbb,fvs_tbb,iso_tbb', types='double', tol=1, inputs=inputs)
+    res.cov['rule'] = 'random graphs n<=9, m<=15 with decimal weights k/1000 (uniform 0.001..1000, tie-provoking {0.1,0.2,0.3} patterns, small decimals) and reweighted families; six exact variants (sequential + real oneTBB)'
+
+
+REGISTRY['C09'] = check_C09
